@@ -21,7 +21,7 @@ import (
 type protoRun struct {
 	ID     string
 	Args   []string
-	Kinds  []string // Proto!OptsSet.kind candidates: usage | error | version | scan
+	Kinds  []string                 // Proto!OptsSet.kind candidates: usage | error | version | scan
 	Events []map[string]interface{} // protoEvents(log), computed while the repository still exists
 	Exit   int
 	Stdout string
